@@ -22,12 +22,14 @@ import (
 
 // tcase is one generated case (also the replay format).
 type tcase struct {
-	Kind    string // "v" validation, "n" normalisation
+	Kind    string // "v" validation, "n" normalisation, "p" the identity inside a party (party.go)
 	CC      string // regime
 	Country string // identity country (normalisation)
 	Code    string
 	Base    string // n: the clean code this is a formatted variant of ("" = none)
 	Stream  string
+	// p: the `$regime` of the party that carries the identity ("" = absent)
+	PartyRegime string `json:",omitempty"`
 }
 
 // ---- the real code ---------------------------------------------------------
@@ -127,6 +129,7 @@ func Run(c *core.Ctx) int {
 	for _, rg := range rgs {
 		cases = append(cases, genRegime(r, rg, n)...)
 	}
+	cases = append(cases, partyCases(r, cases, c.Pick(20, 400))...)
 	return runCases(c, byCC, cases)
 }
 
@@ -245,6 +248,7 @@ func runCases(c *core.Ctx, byCC map[string]*regime, cases []tcase) int {
 	type vres struct{ idErr, partyErr, pan string }
 	vr := make([]vres, len(cases))
 	nr := make([]nres, len(cases))
+	pr := make([]pres, len(cases))
 	reqs := make([]string, len(cases))
 	for i, t := range cases {
 		if !utf8.ValidString(t.Code) {
@@ -267,6 +271,9 @@ func runCases(c *core.Ctx, byCC map[string]*regime, cases []tcase) int {
 			}
 			nr[i] = x
 			reqs[i] = fmt.Sprintf("n %s %s %s %s", t.CC, core.Hex(t.Country), core.Hex(t.Code), core.Hex(x.code1))
+		case "p":
+			pr[i] = goParty(t)
+			reqs[i] = "skip"
 		default:
 			reqs[i] = "skip"
 		}
@@ -281,6 +288,10 @@ func runCases(c *core.Ctx, byCC map[string]*regime, cases []tcase) int {
 	mxNonAlnum := 0
 	for i, t := range cases {
 		rg := byCC[t.CC]
+		if t.Kind == "p" && utf8.ValidString(t.Code) {
+			judgeParty(c, t, pr[i])
+			continue
+		}
 		if rg == nil || reqs[i] == "skip" {
 			c.Count("skipped", 1)
 			continue
@@ -383,7 +394,7 @@ func runCases(c *core.Ctx, byCC map[string]*regime, cases []tcase) int {
 	if mxNonAlnum > 0 {
 		c.Note("MX: %d accepted RFCs contain `&` or `Ñ` (validation skips the generic `^[A-Z0-9]+$` gate for MX). The national RFC format allows these characters, so the C13 statement holds for them; the published JSON-schema pattern of tax.Identity.code admits them too (IdentityCodeSchemaPattern, checked by C11).", mxNonAlnum)
 	}
-	return c.Finish("per regime: codes valid by the published rule (check digits computed independently in the harness), every single-character substitution of such codes inside the positional alphabet plus length edits, random strings over the national alphabet with length of a national format +-1, special-remainder codes, and formatted variants (separators, lower case, country prefix, CH suffix) for the normalisation laws; non-trivial = validation case in the national format (check-digit logic reached) or normalisation case that changes the text; distinct by regime+code",
+	return c.Finish("per regime: codes valid by the published rule (check digits computed independently in the harness), every single-character substitution of such codes inside the positional alphabet plus length edits, random strings over the national alphabet with length of a national format +-1, special-remainder codes, and formatted variants (separators, lower case, country prefix, CH suffix) for the normalisation laws; the same identities as the tax_id of a party document and of the supplier and customer of an invoice, for every party $regime (absent, own, every other registered code), compared with the identity normalised and validated on its own (party.go); non-trivial = validation case in the national format (check-digit logic reached) or normalisation case that changes the text; distinct by regime+code",
 		nil)
 }
 
